@@ -31,14 +31,9 @@ Section AL.
   Lemma keqb_congr_r : forall a b c, keqb a b = true -> keqb c a = keqb c b.
   Proof. intros. rewrite (keqb_sym c a), (keqb_sym c b). apply keqb_congr_l. assumption. Qed.
 
-  Fixpoint al_find (k : K) (al : list (K * V)) : option (K * V) :=
-    match al with
-    | [] => None
-    | kv :: tl => if keqb k (fst kv) then Some kv else al_find k tl
-    end.
+  Notation al_find := (al_find K V keqb).
 
-  Definition keys_nodup (al : list (K * V)) : Prop :=
-    ForallOrdPairs (fun a b => keqb (fst a) (fst b) = false) al.
+  Notation keys_nodup := (keys_nodup K V keqb).
 
   Lemma al_get_find : forall k al, al_get k al = option_map snd (al_find k al).
   Proof. induction al as [|[k' v] tl IH]; cbn; [reflexivity|]. destruct (keqb k k'); [reflexivity|assumption]. Qed.
@@ -75,7 +70,7 @@ Section AL.
   Lemma keys_nodup_cons : forall a al, keys_nodup (a :: al) <->
     (forall b, In b al -> keqb (fst a) (fst b) = false) /\ keys_nodup al.
   Proof.
-    intros. unfold keys_nodup. split.
+    intros. unfold Model.keys_nodup. split.
     - intros H. inversion H; subst. split; [|assumption]. apply Forall_forall. assumption.
     - intros [H1 H2]. constructor; [apply Forall_forall; assumption|assumption].
   Qed.
